@@ -26,7 +26,8 @@ ASSUMPTIONS = [
     "MG94 exchangeability for codons differing at more than one position is 1, as the repository's own test pins it down",
 ]
 BUDGET = {"quick": 70, "thorough": 600}
-FLOORS = {"expm_comparisons": 50, "identity_checks": 50, "kinds": 9}
+ROUNDS = {"thorough": 16}
+FLOORS = {"overlay.C04.p_t_judged": {"quick": 100, "thorough": 1500}, "expm_comparisons": 50, "identity_checks": 50, "kinds": 9}
 
 # SHA-256 of ("%.6f," per value) of the empirical tables at the baseline commit
 EMPIRICAL_SHA = {
@@ -37,7 +38,7 @@ EMPIRICAL_SHA = {
 TS = [0.0, 1e-8, 1e-6, 1e-4, 1e-3, 1e-2, 0.03, 0.1, 0.3, 1.0, 3.0, 10.0, 30.0, 100.0]
 
 
-def cases(tier, seed):
+def _cases(tier, seed):
     rng = np.random.default_rng([seed, 4])
     n = {"quick": 900, "thorough": 12000}[tier]
     out = []
@@ -80,7 +81,7 @@ def _tol(pi, reversible):
     return max(1e-8, 1e3 * 2.2e-16 * cond * 1e3)
 
 
-def run_case(case):
+def _run_case(case):
     import torch
 
     spec = case["spec"]
@@ -228,3 +229,20 @@ def run_case(case):
         fp = kind + ":" + str(spec.get("k", 4))
     sample = {"spec": {k: (v if not isinstance(v, list) or len(v) <= 8 else v[:8] + ["..."]) for k, v in spec.items()}, "ts": ts, "batch": B}
     return {"violations": V, "counters": C, "fingerprint": fp, "sample": sample}
+
+
+# ---------------------------------------------------------------- the same invariants as an overlay on realistic workloads
+def cases(tier, seed):
+    """the property's own generator plus the shared workloads (configurations emitted by torchtree-cli, loaded, evaluated and
+    really run for a few iterations; in thorough also the repository's own test-suite) with this property's contracts attached"""
+    from ..work import shared
+
+    return shared.overlay_cases(tier, seed, PROPERTY) + _cases(tier, seed)
+
+
+def run_case(case):
+    if isinstance(case, dict) and "overlay" in case:
+        from ..work import shared
+
+        return shared.run_overlay_case(case, PROPERTY)
+    return _run_case(case)
